@@ -569,7 +569,9 @@ def op_alphabet(spec):
         if kn not in seen:
             seen.add(kn)
             firsts.append((name, kind))
-    ops += [('sort', name) for name, _ in firsts]
+    # sort_by is offered for every kind except the genotype matrices (a matrix has no row order to sort by; NumPy answers
+    # "no implementation" for the other non-scalar kinds, which is counted as unsupported)
+    ops += [('sort', name) for name, kind in firsts if kind_name(kind) not in GT_KINDS]
     for name, kind in firsts:
         ops.append(('replace', name, 'list'))
         if kind_name(kind) in ARRAY_REPLACE_KINDS:
